@@ -23,7 +23,8 @@ def build(reg, cfg=None):
     reg.add(M.split_edge_contract(PROP))
     reg.add(M.check_winding_contract(PROP))
     reg.add(M.can_be_merged_contract(PROP))
-    reg.add(M.split_edge_contract(PROP, full=True))
+    # split_edge(topology) - the full callee contracts with their preconditions at every call site - is kept in meshops.py but not
+    # registered: 8 of its 209 obligations stayed undecided within the thorough budgets (see DESIGN 10.4)
     M.split_lemmas(reg, PROP)
 
 
@@ -55,9 +56,10 @@ EXPLANATION = ("The book-keeping half of the property as data-structure invarian
                "two faces - i.e. never makes an edge with three faces). cell::generate_edge_set, arbitrary face: afterwards its three sides are "
                "stored edges that list it. cell::rebase: every renumbering of faces or nodes is followed by a rebuild of the edge set, the free "
                "queues are empty afterwards (ghost clock over the stages). split_edge: the four requested triangles join the new node to the four "
-               "old ones and are wound like the triangle they replace (so the surface stays consistently oriented); thorough tier: callee "
-               "preconditions at all call sites, split edge gone, four new edges with two faces, labels inherited.")
-ASSUMPTIONS = ["the local configuration handed to split_edge is the one refine_mesh takes from the edge set of a manifold cell (stated as its precondition)",
+               "old ones and are wound and labelled like the triangle they replace (so the surface stays consistently oriented). "
+               "cell::check_face_winding_order: afterwards the edge shared with the reference face is traversed in opposite directions. "
+               "can_be_merged: the answer is 'exactly two common neighbours of the two end nodes' (link condition). swap_edge: bounded native check only.")
+ASSUMPTIONS = ["add_face / delete_face inside split_edge are used through views; their preconditions at those call sites are not discharged (see C11)", "the local configuration handed to split_edge is the one refine_mesh takes from the edge set of a manifold cell (stated as its precondition)",
                "remove_index<face>/<node>, face::update_node_ids and generate_edge_set as stages of rebase (their effect on the lists is not under contract there)",
                "std::set<edge> as modelled; exact reals for the winding lemma"]
 UNVERIFIED = ["global statements: V-E+F=2, 'every edge has exactly two faces' for the whole surface after a pass, positive enclosed volume - they follow from the local contracts by induction over the operations only together with merge_edge / swap_edge / can_be_merged (link condition), which are not under contract",
